@@ -64,3 +64,7 @@ int main(int argc, char** argv){
   printf("failures=%d\n", failures); fflush(stdout);
   return failures ? 1 : 0;
 }
+
+/* namespace-scope objects with destructors: registration is a no-op (harness processes never run exit handlers that matter) */
+uint8_t G___dso_handle = 0;
+uint32_t X___cxa_atexit(void* f, uint8_t* o, uint8_t* d){ (void)f; (void)o; (void)d; return 0; }
